@@ -45,7 +45,7 @@ OPS12 = ("size", "count", "sum", "mean", "min", "max", "first", "last", "cumsum"
          "shift", "sum_transform", "min_transform", "last_transform",
          # statistics and row-aligned float operations: same numbers (rel 1e-9) whatever the container
          "var", "median", "rolling_sum", "diff", "ema", "mean_transform")
-FLOAT_OPS = {"var": "fiu", "median": "fiu", "rolling_sum": "fiu", "ema": "fi", "diff": "fiumM", "mean_transform": "fiubmM"}
+FLOAT_OPS = {"var": "fiu", "median": "fiu", "rolling_sum": "fiu", "ema": "fi", "diff": "fiumM", "mean_transform": "fiub"}
 SELECTIONS = ("min", "max", "first", "last", "cummin", "cummax", "rolling_min", "rolling_max", "shift", "min_transform", "last_transform")
 VARIANTS = {"f": ("float64", "float32"), "i": ("int64", "int32", "int16", "int8", "uint8", "uint16", "uint32", "uint64", "bool"),
             "t": ("M8[ns]", "M8[s]", "M8[us]", "m8[ns]", "m8[s]", "tz:US/Eastern:ns", "tz:UTC:us")}
